@@ -1283,6 +1283,100 @@ fn stream_serde(thorough: bool, seed: u64, out: &mut dyn Write) {
     }
 }
 
+// ------------------------------------------------------------------------------------------
+// C16: macro invocations `mac <kind> <literal>[,<literal>...]` (UTF-8 literals only)
+
+fn utf8_only(v: Vec<u8>) -> Vec<u8> {
+    match String::from_utf8(v) {
+        Ok(s) => s.into_bytes(),
+        Err(e) => String::from_utf8_lossy(e.as_bytes()).into_owned().into_bytes(),
+    }
+}
+
+fn stream_macros(thorough: bool, seed: u64, out: &mut dyn Write) {
+    let mut r = Rng::new(seed ^ 0x4D41_4352);
+    // fixed witnesses first (past findings and every clause of the property)
+    for (k, l) in [
+        ("lang", "und"), ("lang", "UND"), ("lang", "en"), ("lang", "e"), ("lang", "abcd"), ("lang", ""),
+        ("script", "latn"), ("script", "Lat"), ("region", "us"), ("region", "419"), ("region", "41"),
+        ("variant", "1996"), ("variant", "abcd"), ("variant", "MacOS"), ("variant", "1.cd"),
+        ("langid", "en-US"), ("langid", "und"), ("langid", "EN_latn_us-valencia-1996"), ("langid", "en-US-"), ("langid", "en-a"),
+        ("langid", "en-Latn-abcd"), ("langid", "en\u{e9}"),
+        ("locale", "en-US"), ("locale", "en-u-ca-buddhist-t-h0-hybrid"), ("locale", "en-t-h0-hybrid-u-ca-buddhist"),
+        ("locale", "en-t-es-AR-h0-hybrid-x-foo"), ("locale", "en-a-foo"), ("locale", "en-u1-ca"), ("locale", "en-u-ca-foo-u-nu-bar"),
+        ("locale", "en-t-es-AR-fr"), ("locale", "und-x-a"), ("locale", "en-u"), ("locale", "en-u-ca-true"), ("locale", "en--US"),
+    ] {
+        writeln!(out, "mac {} {}", k, hex(l.as_bytes())).unwrap();
+    }
+    writeln!(out, "mac langids []").unwrap();
+    writeln!(out, "mac langids {},{}", hex(b"en-US"), hex(b"fr")).unwrap();
+    writeln!(out, "mac langids {},{}", hex(b"en-US"), hex(b"f")).unwrap();
+    writeln!(out, "mac langid_slice {},{},{}", hex(b"en"), hex(b"de-AT"), hex(b"und-Latn")).unwrap();
+    writeln!(out, "mac langid_slice {}", hex(b"en-")).unwrap();
+    writeln!(out, "mac locales {},{}", hex(b"en-u-ca-buddhist"), hex(b"pl-t-h0-hybrid-x-a")).unwrap();
+    writeln!(out, "mac locales {},{}", hex(b"en-u-ca-buddhist"), hex(b"pl-a-b")).unwrap();
+    let n = if thorough { 3000 } else { 330 };
+    for i in 0..n {
+        let style = (i % 3) as u8;
+        match i % 11 {
+            0 => {
+                let t = gen_lang(&mut r);
+                let mut t = vec![if r.chance(1, 8) { b"und".to_vec() } else { t }];
+                if r.chance(1, 4) { mutate(&mut r, &mut t); }
+                writeln!(out, "mac lang {}", hex(&utf8_only(render(&mut r, &t, style)))).unwrap();
+            }
+            1 => {
+                let mut t = vec![gen_script(&mut r)];
+                if r.chance(1, 4) { mutate(&mut r, &mut t); }
+                writeln!(out, "mac script {}", hex(&utf8_only(render(&mut r, &t, style)))).unwrap();
+            }
+            2 => {
+                let mut t = vec![gen_region(&mut r)];
+                if r.chance(1, 4) { mutate(&mut r, &mut t); }
+                writeln!(out, "mac region {}", hex(&utf8_only(render(&mut r, &t, style)))).unwrap();
+            }
+            3 => {
+                let mut t = vec![gen_variant(&mut r)];
+                if r.chance(1, 4) { mutate(&mut r, &mut t); }
+                writeln!(out, "mac variant {}", hex(&utf8_only(render(&mut r, &t, style)))).unwrap();
+            }
+            4 | 5 => {
+                let mut t = gen_langid_tokens(&mut r);
+                if r.chance(1, 3) { mutate(&mut r, &mut t); }
+                writeln!(out, "mac langid {}", hex(&utf8_only(render(&mut r, &t, style)))).unwrap();
+            }
+            6 | 7 | 8 => {
+                let s = gen_shape(&mut r, i % 5 == 0);
+                let mut t = s.tokens();
+                if r.chance(1, 3) { mutate(&mut r, &mut t); }
+                writeln!(out, "mac locale {}", hex(&utf8_only(render(&mut r, &t, style)))).unwrap();
+            }
+            9 => {
+                let k = r.below(4);
+                let mut ls = vec![];
+                for _ in 0..k {
+                    let mut t = gen_langid_tokens(&mut r);
+                    if r.chance(1, 8) { mutate(&mut r, &mut t); }
+                    ls.push(utf8_only(render(&mut r, &t, style)));
+                }
+                let kind = if r.chance(1, 2) { "langids" } else { "langid_slice" };
+                writeln!(out, "mac {} {}", kind, hexlist(&ls)).unwrap();
+            }
+            _ => {
+                let k = r.below(4);
+                let mut ls = vec![];
+                for _ in 0..k {
+                    let s = gen_shape(&mut r, false);
+                    let mut t = s.tokens();
+                    if r.chance(1, 8) { mutate(&mut r, &mut t); }
+                    ls.push(utf8_only(render(&mut r, &t, style)));
+                }
+                writeln!(out, "mac locales {}", hexlist(&ls)).unwrap();
+            }
+        }
+    }
+}
+
 pub fn generate(stream: &str, thorough: bool, seed: u64, out: &mut dyn Write) {
     match stream {
         "tokens" => stream_tokens(thorough, out),
@@ -1297,6 +1391,7 @@ pub fn generate(stream: &str, thorough: bool, seed: u64, out: &mut dyn Write) {
         "triples" => stream_triples(thorough, seed, out),
         "parts" => stream_parts(thorough, seed, out),
         "serde" => stream_serde(thorough, seed, out),
+        "macros" => stream_macros(thorough, seed, out),
         _ => {
             eprintln!("unknown stream {}", stream);
             std::process::exit(2);
